@@ -2,6 +2,7 @@ package props
 
 import (
 	"bytes"
+	"encoding/base64"
 	"encoding/hex"
 	"fmt"
 	"time"
@@ -119,6 +120,63 @@ func runC06(r *engine.Run) {
 		if err != nil || !bytes.Equal(enc, canon) {
 			c.Fail("encode/MHDR", fmt.Sprintf("%s: %x, spec %x", fmtVals(want), enc, canon), nil)
 		}
+	})
+	// the MHDR as the first byte of a complete received frame (binary and text form): the three RFU
+	// bits are ignored by a receiver, so the frame decodes exactly as it does with those bits clear
+	r.PartDims("hdr/MHDR-in-frame", []string{"byte:256", "body:3 (per MType: minimal / with content / second rejoin layout)"}, 256*3, func(c *engine.Case) {
+		b := byte(c.Index)
+		variant := int(c.Index / 256)
+		var body []byte
+		switch b >> 5 {
+		case 0:
+			body = fillBytes(18, 0x10)
+		case 1:
+			body = fillBytes(12+16*(variant%2), 0x20)
+		case 2, 3, 4, 5:
+			body = []byte{0x04, 0x03, 0x02, 0x01, 0x00, 0x34, 0x12}
+			if variant > 0 {
+				body = append(body, 0x0A, 0x51, 0x52, 0x53)
+			}
+		case 6:
+			if variant == 1 {
+				body = append([]byte{1}, fillBytes(18, 0x30)...)
+			} else {
+				body = append([]byte{byte(variant)}, fillBytes(13, 0x30)...)
+			}
+		case 7:
+			body = fillBytes(variant*3, 0x40)
+		}
+		frame := append(append([]byte{b}, body...), 0xA1, 0xA2, 0xA3, 0xA4)
+		clear := append([]byte(nil), frame...)
+		clear[0] &= 0xE3
+		c.Eval()
+		var p, q lorawan.PHYPayload
+		errP, errQ := p.UnmarshalBinary(frame), q.UnmarshalBinary(clear)
+		if errQ != nil {
+			// whether this frame kind / Major is accepted at all is not the subject here
+			if errP == nil {
+				c.Fail("decode/MHDR-in-frame", fmt.Sprintf("frame %x is accepted but the same frame with MHDR RFU bits clear (%x) is refused: %v", frame, clear, errQ), nil)
+			}
+			c.Outcome("mhdr-in-frame/refused-with-clear-rfu-bits")
+			return
+		}
+		c.NonTrivial()
+		if errP != nil {
+			c.Fail("decode/MHDR-in-frame", fmt.Sprintf("frame %x is refused (%v) although it differs from the accepted frame %x only in RFU bits of the MHDR", frame, errP, clear), nil)
+			return
+		}
+		want := spec.DecodeFields(spec.MHDRFields, []byte{b})
+		if int64(p.MHDR.MType) != want["MType"] || int64(p.MHDR.Major) != want["Major"] {
+			c.Fail("decode/MHDR-in-frame", fmt.Sprintf("frame %x: MType=%d Major=%d, spec %s", frame, p.MHDR.MType, p.MHDR.Major, fmtVals(want)), nil)
+		}
+		if a, bb := deepPrint(p), deepPrint(q); a != bb {
+			c.Fail("decode/MHDR-in-frame", fmt.Sprintf("frame %x decodes to %s, with RFU bits clear to %s", frame, a, bb), nil)
+		}
+		var t lorawan.PHYPayload
+		if err := t.UnmarshalText([]byte(base64.StdEncoding.EncodeToString(frame))); err != nil || deepPrint(t) != deepPrint(q) {
+			c.Fail("decode/MHDR-in-frame/text", fmt.Sprintf("text form of frame %x: err %v", frame, err), nil)
+		}
+		c.Outcome(fmt.Sprintf("mhdr-in-frame/mtype=%d", b>>5))
 	})
 	r.PartDims("hdr/FCtrl", []string{"byte:256", "direction:2"}, 512, func(c *engine.Case) {
 		b := byte(c.Index)
